@@ -44,7 +44,7 @@ class GenError(Exception):
     pass
 
 
-DEFAULT_KNOBS = dict(reuse=0.5, zeros=0.15, variables=0.2, lists=0.25, nested=0.5)
+DEFAULT_KNOBS = dict(reuse=0.75, zeros=0.15, variables=0.2, lists=0.25, nested=0.5)
 
 
 class Gen:
@@ -54,7 +54,7 @@ class Gen:
         self.k = dict(DEFAULT_KNOBS)
         if knobs:
             self.k.update(knobs)
-        self.pool = [Index() for _ in range(3)]
+        self.pool = [Index() for _ in range(2)]
         self.coefs = {}
         self.vars = {}
         self.max_dim = max_dim
@@ -89,6 +89,8 @@ class Gen:
 
     def check(self, e, shape, fi):
         want = {i.count(): d for i, d in fi.items()}
+        if not isinstance(e, ufl.core.expr.Expr):     # e.g. ufl.sin(literal) folds to a python float
+            raise GenError("not an expression")
         if tuple(e.ufl_shape) != tuple(shape) or self.fiset(e) != want:
             raise GenError(f"generator produced shape {e.ufl_shape} fi {self.fiset(e)}, wanted {shape} {want}")
         return e
@@ -172,6 +174,8 @@ class Gen:
         if kind == "sin":
             return ufl.sin(a)
         if kind == "abs":
+            if isinstance(a, ufl.classes.Abs):     # Abs(Abs(x)) corrupts x in /repo (C05 matter)
+                return ufl.sin(a)
             return ufl.classes.Abs(a)
         if kind == "sq":
             return ufl.classes.Power(a, IntValue(2))
